@@ -8,6 +8,7 @@
 import GraphiqModel.Proofs.SweepCommuteDM
 import GraphiqModel.Proofs.CommuteTableau
 import GraphiqModel.Proofs.HilbertDimHistory
+import GraphiqModel.Proofs.CommuteRefine
 import Mathlib.Analysis.Matrix.PosDef
 namespace Graphiq.Commute
 open Graphiq Matrix Classical
@@ -322,5 +323,130 @@ theorem appD_api (ne np : Nat) (a : SOp) (d : Dec) (hd : decode ne np a = some d
   rw [hn] at h1
   rw [h1]
   rfl
+
+/-! ## … and the stabilizer semantics `appRaw` is defined exactly when the Born weight is non-zero -/
+
+open scoped ComplexOrder in
+/-- the probability of the outcome `z_measurement_gate` reports is not zero -/
+theorem weight_ne_zero_of_reported (t : Tab) (q : Nat) (o : Bool) (hq : q < t.n) (hv : t.Valid) (hr : t.StabReal)
+    (h : (t.zMeasure q o).2.1 = o) : weightP t (.meas q o) ≠ 0 := by
+  show (if (t.zMeasure q o).2.1 = o then Matrix.trace (Hilbert.proj t.n (PRow.Zq q o) * Hilbert.tabRho t.n t) else 0) ≠ 0
+  rw [if_pos h]
+  obtain ⟨h1, _, _⟩ := Hilbert.meas_density t q o hq hv hr
+  rw [h] at h1
+  intro h0
+  unfold Hilbert.measOutcome at h1
+  have h0' : Matrix.trace (Hilbert.proj t.n (PRow.Zq q o) * Hilbert.rho t.n (STab.ofTab t)) = 0 := h0
+  rw [if_pos h0'] at h1
+  cases o <;> cases h1
+
+/-- **a primitive in the stabilizer (group) semantics**: undefined iff the Born weight of its recorded outcome is 0, otherwise
+    the group of the tableau after the API call -/
+theorem appP_api {n : Nat} {t : Tab} (ht : TInv n t) (p : Tab.Op) (hok : primOk n p = true) :
+    appP n p (some (TabSpec.gstate t)) = if weightP t p = 0 then none else some (TabSpec.gstate (apiP t p)) := by
+  have hokt : primOk t.n p = true := by rw [ht.n_eq]; exact hok
+  rcases primOk_cases n p hok with hg | ⟨q, o, rfl, hq⟩
+  · have hw : weightP t p = 1 := by cases p <;> first | rfl | cases hg
+    rw [hw, if_neg one_ne_zero]
+    cases p with
+    | h q =>
+      have hq : q < n := by simpa [primOk] using hok
+      exact appP_gate_tab (.h q) (PRow.h q) hok (fun _ h => h) (fun _ => rfl) (TabSpec.isAut1_h n q hq) ht
+    | s q =>
+      have hq : q < n := by simpa [primOk] using hok
+      exact appP_gate_tab (.s q) (PRow.s q) hok (fun _ h => h) (fun _ => rfl) (TabSpec.isAut1_s n q hq) ht
+    | sdg q =>
+      have hq : q < n := by simpa [primOk] using hok
+      exact appP_gate_tab (.sdg q) (PRow.sdg q) hok (fun _ h => h) (fun _ => rfl) (TabSpec.isAut1_sdg n q hq) ht
+    | x q =>
+      have hq : q < n := by simpa [primOk] using hok
+      exact appP_gate_tab (.x q) (PRow.xg q) hok (fun _ h => h) (fun _ => rfl) (TabSpec.isAut1_xg n q hq) ht
+    | y q =>
+      have hq : q < n := by simpa [primOk] using hok
+      exact appP_gate_tab (.y q) (PRow.yg q) hok (fun _ h => h) (fun _ => rfl) (TabSpec.isAut1_yg n q hq) ht
+    | z q =>
+      have hq : q < n := by simpa [primOk] using hok
+      exact appP_gate_tab (.z q) (PRow.zg q) hok (fun _ h => h) (fun _ => rfl) (TabSpec.isAut1_zg n q hq) ht
+    | cnot c tg =>
+      have hq : c < n ∧ tg < n ∧ c ≠ tg := by simpa [primOk] using hok
+      exact appP_gate_tab (.cnot c tg) (PRow.cnot c tg) hok (fun _ h => h) (fun _ => rfl)
+        (TabSpec.isAut1_cnot n c tg hq.1 hq.2.1 hq.2.2) ht
+    | cz c tg =>
+      have hq : c < n ∧ tg < n ∧ c ≠ tg := by simpa [primOk] using hok
+      exact appP_gate_tab (.cz c tg) (PRow.cz c tg) hok (fun _ h => h) (fun _ => rfl)
+        (TabSpec.isAut1_cz n c tg hq.1 hq.2.1 hq.2.2) ht
+    | swap _ _ => cases hg
+    | meas _ _ => cases hg
+    | resetZ _ _ _ => cases hg
+    | resetX _ _ _ => cases hg
+    | resetY _ _ _ => cases hg
+    | insert _ => cases hg
+    | add => cases hg
+    | remove _ _ => cases hg
+    | ptrace _ _ => cases hg
+  · have hq' : q < t.n := by rw [ht.n_eq]; exact hq
+    by_cases hrep : (t.zMeasure q o).2.1 = o
+    · rw [if_neg (weight_ne_zero_of_reported t q o hq' ht.valid ht.real hrep)]
+      have := meas_refines ht q o hq
+      rw [hrep] at this
+      exact this
+    · have hw : weightP t (.meas q o) = 0 := by
+        show (if (t.zMeasure q o).2.1 = o then _ else (0 : ℂ)) = 0
+        rw [if_neg hrep]
+      rw [hw, if_pos rfl, appP_meas n q o hq]
+      -- the recorded outcome cannot occur: the opposite `Z` eigenvalue is a stabilizer
+      have hz := meas_leaves_Zq ht q o hq
+      cases hp : t.pivot q with
+      | some p =>
+        exfalso
+        have e : t.zMeasure q o = (t.measRandom q p o, o, p) := by simp [Tab.zMeasure, hp]
+        rw [e] at hrep
+        exact hrep rfl
+      | none =>
+        have e : t.zMeasure q o = (t, (t.measScratch q).r, 0) := by simp [Tab.zMeasure, hp]
+        rw [e] at hz hrep
+        simp only at hz hrep
+        have hro : (t.measScratch q).r = !o := by
+          revert hrep; cases (t.measScratch q).r <;> cases o <;> simp
+        rw [hro] at hz
+        simp only [measStep, Option.bind_some]
+        rw [if_pos (show (TabSpec.gstate t).G (PRow.Zq q (!o)) from hz)]
+
+theorem runP_api {n : Nat} : ∀ (l : List Tab.Op) {t : Tab}, TInv n t → (∀ p ∈ l, primOk n p = true) →
+    runP n l (some (TabSpec.gstate t)) = if weightPs l t = 0 then none else some (TabSpec.gstate (apiPs l t)) := by
+  intro l
+  induction l with
+  | nil => intro t _ _; simp [runP, weightPs, apiPs]
+  | cons p l ih =>
+    intro t ht hok
+    have hokp := hok p (by simp)
+    rw [runP_cons, appP_api ht p hokp]
+    have hapi := appPD_api t p (by rw [ht.n_eq]; exact hokp) ht.valid ht.real 1
+    have ht1 : TInv n (apiP t p) := ⟨hapi.2.1, hapi.2.2.1, hapi.2.2.2.trans ht.n_eq⟩
+    by_cases hw : weightP t p = 0
+    · rw [if_pos hw, runP_none]
+      simp [weightPs, hw]
+    · rw [if_neg hw, ih ht1 (fun p' hp' => hok p' (List.mem_cons_of_mem _ hp'))]
+      simp only [weightPs, apiPs, mul_eq_zero, hw, false_or]
+
+/-- **the density-matrix semantics refines the stabilizer semantics, operation by operation**: for an operation of the
+    compile sequence on a valid tableau `t` with real stabilizer rows and an outcome supplied, with `t'` the tableau after its
+    API calls and `w` the Born weight of the recorded outcome: `appRaw` on the group of `t` is undefined ("cannot occur") iff
+    `w = 0`, and otherwise gives the group of `t'` and pops the outcome stream; `appD` on `c · ρ(t)` gives `(c · w) · ρ(t')`
+    and pops the same stream -/
+theorem appD_refines_appRaw (ne np : Nat) (a : SOp) (d : Dec) (hd : decode ne np a = some d) (t : Tab)
+    (ht : TInv (ne + np) t) (sc : Script) (hhas : d.has sc)
+    (hok : ∀ p ∈ d.prims (d.out sc), primOk (ne + np) p = true) (c : ℂ) :
+    appRaw ne np a (some (TabSpec.gstate t, sc)) =
+      (if weightPs (d.prims (d.out sc)) t = 0 then none else some (TabSpec.gstate (apiPs (d.prims (d.out sc)) t), d.pop sc)) ∧
+    appD ne np a (some (c • Hilbert.tabRho (ne + np) t, sc)) =
+      some ((c * weightPs (d.prims (d.out sc)) t) • Hilbert.tabRho (ne + np) (apiPs (d.prims (d.out sc)) t), d.pop sc) ∧
+    TInv (ne + np) (apiPs (d.prims (d.out sc)) t) := by
+  obtain ⟨h1, hv1, hr1, hn1⟩ := appD_api ne np a d hd t ht.n_eq ht.valid ht.real sc hhas hok c
+  refine ⟨?_, h1, ⟨hv1, hr1, hn1⟩⟩
+  have e := appRaw_map ne np a d hd (some (TabSpec.gstate t)) sc
+  simp only [Option.map_some] at e
+  rw [e, if_pos hhas, runP_api _ ht hok]
+  split <;> rfl
 
 end Graphiq.Commute
